@@ -2,6 +2,9 @@ S = "clematis/engine/snapshot.py"
 G = "clematis/engine/gel.py"
 H = "clematis/engine/stages/hybrid.py"
 CASES = [
+    ("loader-canonicalises-endpoints", "mutant", "clematis/engine/snapshot.py", "                        rec = dict(rec)\n                        rec[\"id\"] = key\n", "                        rec = dict(rec)\n                        rec[\"id\"] = key\n                        rec[\"src\"] = min(src, dst)\n                        rec[\"dst\"] = max(src, dst)\n", "C06.TABLE"),
+    ("loader-rounds-weight-again", "mutant", "clematis/engine/snapshot.py", "                        rec = dict(rec)\n                        rec[\"id\"] = key\n", "                        rec = dict(rec, weight=round(float(rec.get(\"weight\", 0.0)), 3))\n                        rec[\"id\"] = key\n", "C06.TABLE"),
+    ("loader-id-by-spread", "twin", "clematis/engine/snapshot.py", "                        rec = dict(rec)\n                        rec[\"id\"] = key\n", "                        rec = {**rec, \"id\": key}\n", None),
     ("loader-reads-ver", "mutant", S, "    ver = (data or {}).get(\"version_etag\")\n", "    ver = (data or {}).get(\"ver\")\n", "C06.TABLE"),
     ("writer-drops-store", "mutant", S, "    payload[\"store\"] = store_export if isinstance(store_export, dict) else {}\n", "    if isinstance(store_export, dict):\n        payload[\"store\"] = store_export\n", "C06.TABLE"),
     ("importer-field-renamed", "mutant", S, "                val = float(item.get(\"value\", 0.0))", "                val = float(item.get(\"val\", 0.0))", "C06.TABLE"),
